@@ -2035,6 +2035,14 @@ class CallMixin(object):
                                    patterns=[z3.Select(nh, kq), z3.Select(ng, kq)]))
             st.cells[recv.id] = SymDict(nh, ng, r.kty, r.vty)
             return [(NONE, st)]
+        if isinstance(r, SymDict) and name == 'setdefault' and len(args) == 2 and isinstance(recv, InnerRef) and r.vty.kind != 'Dict':
+            # inner.setdefault(k, v) through an alias of an inner dictionary: the store goes to the outer dictionary's cell
+            o = st.cells[recv.outer.id]; k = self.key_term(args[0], st)
+            dz = self.as_fn(args[1], st) if r.vty.kind == 'Fn' else unwrap(d[1])
+            ng = z3.Store(r.get, k, z3.If(z3.Select(r.has, k), z3.Select(r.get, k), dz))
+            inner2 = o.vty.sort().mkdict(z3.Store(r.has, k, z3.BoolVal(True)), ng)
+            st.cells[recv.outer.id] = SymDict(o.has, z3.Store(o.get, recv.key, inner2), o.kty, o.vty, order=o.order)
+            return [(wrap(r.vty, z3.Select(ng, k)), st)]
         if isinstance(r, SymDict) and name == 'setdefault' and len(args) == 2 and isinstance(recv, Ref):
             k = self.key_term(args[0], st); dflt = d[1]
             if r.vty.kind == 'Dict':
